@@ -192,6 +192,10 @@ func (re *Regexp) FindAllIndex(b []byte, n int) [][]int {
 	runes, byteOffsets := bytesToRunesAndOffsets(b)
 	locs, err := re.re.FindAllRunesIndex(runes, n)
 	must(err)
+	if len(locs) == 0 {
+		// regexp returns nil, not an empty slice, when there is no match
+		return nil
+	}
 	if byteOffsets == nil {
 		return locs
 	}
@@ -218,6 +222,10 @@ func (re *Regexp) FindAllString(s string, n int) []string {
 func (re *Regexp) FindAllStringIndex(s string, n int) [][]int {
 	locs, err := re.re.FindAllStringIndex(s, n)
 	must(err)
+	if len(locs) == 0 {
+		// regexp returns nil, not an empty slice, when there is no match
+		return nil
+	}
 	return locs
 }
 
